@@ -866,6 +866,9 @@ def w2f_scan_complete(chk, repo, rid):
     # scan) = nothing to state
     finds = [c for c in ast.walk(f.node) if isinstance(c, ast.Call) and call_name(c) == 'find' and isinstance(c.func, ast.Attribute) and unparse(c.func.value) == S
              and c.args and isinstance(c.args[0], ast.Constant) and c.args[0].value == 'W']
+    outside_ = [c for c in finds if not any(isinstance(a_, (ast.For, ast.While)) for a_ in repo.ancestors(c))]
+    if outside_:
+        finds = outside_          # the first search is executed before the loop; the ones inside resume behind a hit
     for c in finds:
         x = c.args[1] if len(c.args) > 1 else kwarg(c, 'start')
         lp = next((a_ for a_ in repo.ancestors(c) if isinstance(a_, (ast.For, ast.While))), None)
